@@ -267,3 +267,10 @@ impl From<Window> for isize {
         w.0 as isize
     }
 }
+
+#[cfg(feature = "verif")]
+impl FlowControl {
+    pub(crate) fn verif_raw(&self) -> (i32, i32) {
+        (self.window_size.0, self.available.0)
+    }
+}
